@@ -36,6 +36,7 @@ type scenario struct {
 	noCancelV  bool // DoUntilQuorumWithoutSuccessfulContextCancellation
 	sorter     bool // fixed zone order
 	ctxTerm    bool // outcome "terminal error, but only after the call's own context has ended" offered (with terminal)
+	cancelAny  bool // with cancel: the caller's context may also end while the caller is in the middle of processing a result
 }
 
 func (s scenario) String() string {
@@ -184,7 +185,9 @@ func runOne(t *testing.T, sc scenario, ch *sched.Chooser) (res sched.Result) {
 				// a cancellation that lands between "decide to release" and the release itself makes the
 				// instance goroutine's select see two ready cases, which Go resolves at random (either answer is
 				// allowed by the documentation: f may not be called at all once the context is cancelled).
-				sched.YieldUntil("cancel-window", func() bool { return callerStarted && !e.ParkedInCond("caller") })
+				// (cancelAny — all requests started at once, no hedging: the only select that can then see two ready cases
+				// is the main loop's, whose pick is an explorer choice through the vsel seam)
+				sched.YieldUntil("cancel-window", func() bool { return callerStarted && (sc.cancelAny || !e.ParkedInCond("caller")) })
 				sched.Obs("cancel")
 				cancel(errCallerCancelled)
 			})
@@ -366,8 +369,20 @@ func runOne(t *testing.T, sc scenario, ch *sched.Chooser) (res sched.Result) {
 						fail("phantom-cancel", "returned the caller's cancellation cause before any cancellation")
 					}
 				case termBefore || tooMany:
-					if !strings.Contains(retErr.Error(), "failure of "+lastErr) && !strings.Contains(retErr.Error(), " at "+lastErr) {
-						fail("foreign-error", "returned %v but the failing call that decided was %s", retErr, lastErr)
+					// the error must be one that a call which had failed before the return produced (results are taken in the
+					// order the calls returned; which of several pending failures tips the balance is not promised)
+					okErr := false
+					for _, cid := range sortedIDs(calls) {
+						c := calls[cid]
+						if c.endSeq == 0 || c.endSeq > retSeq || c.outcome == "ok" {
+							continue
+						}
+						if strings.Contains(retErr.Error(), "failure of "+c.id) || strings.Contains(retErr.Error(), " at "+c.id) || (c.outcome == "ctx" && errors.Is(retErr, context.Canceled)) {
+							okErr = true
+						}
+					}
+					if !okErr {
+						fail("foreign-error", "returned %v, which none of the calls that had failed by then produced (last failure: %s)", retErr, lastErr)
 					}
 				default:
 					fail("early-error", "returned error %v although failures (%d, zones %v) were within tolerance and no terminal error / cancellation occurred", retErr, errsBefore, failedZones)
@@ -494,6 +509,9 @@ func scenarios() []scenario {
 			}
 			if me <= 1 || len(l) <= 2 {
 				out = append(out, scenario{name: "cancel", zones: l, maxErrors: me, minimize: me > 0, cancel: true})
+				if len(l) <= 3 && me >= 1 {
+					out = append(out, scenario{name: "cancel-anytime", zones: l, maxErrors: me, minimize: false, cancel: true, cancelAny: true})
+				}
 				out = append(out, scenario{name: "terminal", zones: l, maxErrors: me, minimize: false, terminal: true})
 			}
 		}
@@ -551,6 +569,9 @@ func TestC11(t *testing.T) {
 	rep.Rule = "stateless DFS on the real DoUntilQuorum / …WithoutSuccessfulContextCancellation; oracle from the observation log: results only from successful calls, success only when the criterion holds at return (count, or exactly the instances of complete failure-free zones), error only beyond tolerance / terminal / cancelled and equal to the deciding error, no success once a terminal error arrived before the successes that justify it, each instance called at most once, minimisation bound at every call start, every unreturned success cleaned up exactly once, contexts of unused calls cancelled; distinct_nontrivial = distinct (scenario, returned set, outcome vector, hedge ticks)"
 	deadline := ev.Deadline(8 * time.Minute)
 	for _, sc := range scs {
+		if sc.cancelAny {
+			continue // explored by TestC11SelectRace, which is built with the select seam
+		}
 		x := &sched.Explorer{Bound: bound, Report: rep, Deadline: deadline, Scenario: sc.String(), Run: func(c *sched.Chooser) sched.Result { return runOne(t, sc, c) }}
 		if !x.ExploreOrReplay() {
 			rep.NotExhaustive("deadline or violation cap in " + sc.String())
@@ -560,6 +581,46 @@ func TestC11(t *testing.T) {
 		if x.Execs > 200 {
 			rep.Sample(fmt.Sprintf("%s: %d executions, %d distinct outcomes", sc.String(), x.Execs, x.Outcomes()))
 		}
+	}
+	if err := rep.Write(); err != nil {
+		t.Fatal(err)
+	}
+}
+
+// TestC11SelectRace — "caller cancellation at any point", including the point where the main loop of DoUntilQuorum is
+// between two selects: the caller's context ends while a result is already waiting, so the next select finds two
+// ready cases. This part is built with the vsel seam: a scheduling point at the top of the loop (otherwise the loop
+// runs natively from one receive to the next and can never be caught there) and an explorer choice of the case taken.
+func TestC11SelectRace(t *testing.T) {
+	rep := ev.NewReport("C11", "select-race")
+	bound := 2
+	if ev.Thorough() {
+		bound = 3
+	}
+	var scs []scenario
+	for _, sc := range scenarios() {
+		if sc.cancelAny {
+			scs = append(scs, sc)
+		}
+	}
+	var names []string
+	for _, sc := range scs {
+		names = append(names, sc.String())
+	}
+	rep.Bound = fmt.Sprintf("%d scenarios (2..3 instances without zones, MaxErrors >= 1, all requests started at once, cancellation allowed at any moment incl. while the caller is between two selects); per call outcome ∈ {ok, error, fail only after its context ends}; when both the caller's cancellation and a result are ready, both picks of the select; all schedules with <= %d preemptions: %v", len(scs), bound, names)
+	rep.Rule = "same oracle as the dountilquorum part (in particular: every successful result that is not returned is cleaned up exactly once, also a result that was ready when the cancellation was noticed)"
+	deadline := ev.Deadline(8 * time.Minute)
+	si, sn := ev.Shard()
+	for i, sc := range scs {
+		if i%sn != si {
+			continue
+		}
+		x := &sched.Explorer{Bound: bound, Report: rep, Deadline: deadline, Scenario: sc.String(), NoShard: true, Run: func(c *sched.Chooser) sched.Result { return runOne(t, sc, c) }}
+		if !x.ExploreOrReplay() {
+			rep.NotExhaustive("deadline or violation cap in " + sc.String())
+			break
+		}
+		rep.Sample(fmt.Sprintf("%s: %d executions, %d distinct outcomes", sc.String(), x.Execs, x.Outcomes()))
 	}
 	if err := rep.Write(); err != nil {
 		t.Fatal(err)
